@@ -19,7 +19,7 @@ def run_extract_globals(ctx):
     with open(os.path.join(C.WORK, "extractglobals.lock"), "w") as lock:
         fcntl.flock(lock, fcntl.LOCK_EX)
         exe = os.path.join(C.BIN, "extractglobals")
-        rc, o = C.sh(["go", "build", "-o", exe, "./cmd/extractglobals"], cwd=os.path.join(C.VERIF, "harness"),
+        rc, o = C.sh(["go", "build"] + C.go_mod_args() + ["-o", exe, "./cmd/extractglobals"], cwd=os.path.join(C.VERIF, "harness"),
                      env=C.GOENV, timeout=600)
         ctx.log.append({"step": "go build extractglobals", "rc": rc, "out": o[-1000:]})
         if rc != 0:
